@@ -138,7 +138,13 @@ class FrameCollector:
         filename = frame.f_code.co_filename
         func_name = frame.f_code.co_name
 
+        # the locals of a class body (or of exec'd code) are whatever namespace was given, not necessarily a dict
         f_locals = frame.f_locals
+        if type(f_locals) is not dict:
+            try:
+                f_locals = dict(f_locals)
+            except BaseException:
+                f_locals = {}
         _self = f_locals.get('self', None)
         class_name = None
         if _self is not None:
